@@ -99,6 +99,7 @@ def submodel(base: dict, methods: List[str]) -> dict:
     }
 
 
+ODD_DIR_NAMES = ["", "out[v2]", "out dir", "", "o*t", "caf\u00e9-\u51fa\u529b", "", "out{a,b}", "x?y", "", "%TEMP%$HOME"]
 TOOL_CONFIGS = [
     ("rustfmt.toml", "hard_tabs = true\nmax_width = 60\n"),
     (".rustfmt.toml", "max_width = 40\ntab_spaces = 2\n"),
@@ -193,13 +194,17 @@ def make_machine(plugin: str, pool: Pool, ctx: Ctx, stats: collections.Counter, 
     class GenMachine(RuleBasedStateMachine):
         def __init__(self):
             super().__init__()
-            self.out = gen.scratch(f"lspverif-c16-{plugin}-")
+            self.base_dir = gen.scratch(f"lspverif-c16-{plugin}-")
+            # the name of the output directory is not part of the input either: brackets, blanks, wildcards, non-ASCII
+            name = ODD_DIR_NAMES[(len(refs) + stats["runs"]) % len(ODD_DIR_NAMES)]
+            self.out = os.path.join(self.base_dir, name) if name else self.base_dir
+            os.makedirs(self.out, exist_ok=True)
             self.history: List[Any] = []
             self.last_key: Optional[str] = None
             self.dirty = False
 
         def teardown(self):
-            shutil.rmtree(self.out, ignore_errors=True)
+            shutil.rmtree(self.base_dir, ignore_errors=True)
 
         def reference(self, key: str) -> Tuple[int, Dict[str, str]]:
             if key not in refs:
